@@ -478,6 +478,50 @@ func runCheck(prop, tier string, opt options) int {
 		fmt.Fprintln(os.Stderr, "explore:", err)
 		return 2
 	}
+	// thorough tier: re-decide the quick instance set with a second solver and compare the verdicts
+	crossChecked, crossNote := 0, ""
+	var crossMismatch []string
+	if tier == "thorough" && os.Getenv("KV_NOCROSS") == "" && !stats.BudgetHit {
+		alt := "cvc5"
+		if opt.solver == "cvc5" {
+			alt = "z3-new"
+		}
+		qi := spec.Quick(l)
+		if spec.NoNative {
+			for i := range qi {
+				qi[i].NoNative = true
+			}
+		}
+		opt2 := opt
+		opt2.solver = alt
+		opt2.budgetS = 900
+		opt2.timeoutMs = 30000
+		res2, st2, err2 := explore(l, qi, opt2)
+		if err2 == nil {
+			byKey := map[string]*instResult{}
+			for _, r := range results {
+				byKey[r.Inst.Key()] = r
+			}
+			for _, r2 := range res2 {
+				r1 := byKey[r2.Inst.Key()]
+				if r1 == nil || r2.Uncertain > 0 || r1.Uncertain > 0 || r2.ByKind["unsupported"] > 0 {
+					continue
+				}
+				if st2.BudgetHit {
+					// only instances whose exploration certainly finished are comparable: skip when the budget was hit
+					continue
+				}
+				crossChecked++
+				if fmt.Sprint(r1.ByKind) != fmt.Sprint(r2.ByKind) {
+					crossMismatch = append(crossMismatch, fmt.Sprintf("%s: %s %v vs %s %v", r2.Inst.Key(), opt.solver, r1.ByKind, alt, r2.ByKind))
+				}
+			}
+			crossNote = fmt.Sprintf("%d instances of the quick set re-decided with %s (%d queries, %.1fs)", crossChecked, alt, st2.Queries, st2.SolverS)
+			if st2.BudgetHit {
+				crossNote = "cross-solver pass with " + alt + " exceeded its 900 s budget: not compared"
+			}
+		}
+	}
 	budgetNote := ""
 	if stats.BudgetHit {
 		budgetNote = fmt.Sprintf("time budget of %d s exceeded: exploration stopped early (violations found so far are still reported)", opt.budgetS)
@@ -686,6 +730,9 @@ func runCheck(prop, tier string, opt options) int {
 	if budgetNote != "" {
 		inconclusive = append(inconclusive, budgetNote)
 	}
+	for _, m := range crossMismatch {
+		inconclusive = append(inconclusive, "solver disagreement: "+m)
+	}
 	// vacuity
 	for _, c := range spec.Covers {
 		if covers[c] == 0 {
@@ -768,6 +815,8 @@ func runCheck(prop, tier string, opt options) int {
 			"known_findings_seen":           knownList,
 			"ssa_instructions_executed":     stats.Instrs,
 			"scheduler_steps":               stats.Sched,
+			"cross_solver_checked":          crossChecked,
+			"cross_solver_note":             crossNote,
 			"load_s":                        l.LoadS,
 			"workers":                       opt.workers,
 			"explanation":                   "bounded symbolic execution of the go/ssa form of the current /repo tree; every branch feasibility and every assertion/panic obligation is decided by the SMT solver over all values of the symbolic inputs within the stated bounds; states = decision points + explored paths, transitions = SSA block transitions + scheduler steps",
